@@ -70,6 +70,7 @@ type Verifier struct {
 	lockSnap    map[string]*State
 	firstLockSnap *State
 	curCells  *frameCells
+	topCells  *frameCells
 	goHook    func(s *State, t *ssa.Go)
 	siteSeen  map[string]int
 	srcCache  map[string][]string
@@ -180,6 +181,9 @@ func (v *Verifier) addOb(st *State, kind string, pos token.Pos, goal *Term, clau
 		v.oblOrder = append(v.oblOrder, name)
 	}
 	ob.pairs = append(ob.pairs, [2]*Term{st.pcTerm(), goal})
+	if os.Getenv("GOVC_DEBUG") == "goal" {
+		fmt.Fprintf(os.Stderr, "DEBUG ob %s goal=%s\n", name, trunc(goal.String(), 700))
+	}
 	for _, n := range st.notes {
 		found := false
 		for _, m := range ob.notes {
@@ -321,6 +325,9 @@ func (v *Verifier) runFunc(fn *ssa.Function, st *State, args []*Value, clo *Clos
 	}
 	fr := &Frame{fn: fn, regs: map[ssa.Value]*Value{}, parent: st.frame, depth: depth}
 	fc := &frameCells{m: map[*ssa.Alloc]*Cell{}}
+	if fr.parent == nil {
+		v.topCells = fc
+	}
 	st.frame = fr
 	for i, p := range fn.Params {
 		if i < len(args) {
@@ -696,6 +703,7 @@ func (v *Verifier) execInstr(fn *ssa.Function, s *State, ins ssa.Instruction, fc
 	case *ssa.MakeChan:
 		r := s.alloc("chan", 1)
 		s.heap["chan#closed"] = Store(s.heapArr("chan#closed", ArrSort(SInt, SBool)), r, False)
+		s.heap["chan#running"] = Store(s.heapArr("chan#running", runningSort), r, False)
 		v.set(s, t, scalar(t.Type(), r))
 	case *ssa.MakeInterface:
 		v.set(s, t, v.makeIface(s, v.reg(s, t.X), t.X.Type(), t.Type()))
